@@ -302,10 +302,15 @@ func ruleCacheRecursion(c *Ctx) {
 			}
 			grew := false
 			if gov != nil {
-				if be, ok := ast.Unparen(gov.Cond).(*ast.BinaryExpr); ok && be.Op == token.LSS {
-					if xi, ok := ast.Unparen(be.X).(*ast.Ident); ok && paramIndex(fd, info, info.Uses[xi]) >= 0 {
+				if be, ok := ast.Unparen(gov.Cond).(*ast.BinaryExpr); ok && (be.Op == token.LSS || be.Op == token.GTR) {
+					// index < expected, in either spelling
+					small, large := be.X, be.Y
+					if be.Op == token.GTR {
+						small, large = be.Y, be.X
+					}
+					if xi, ok := ast.Unparen(small).(*ast.Ident); ok && paramIndex(fd, info, info.Uses[xi]) >= 0 {
 						defs := singleDefs(info, fd.Body)
-						rhs := resolveLocal(info, be.Y, defs, 3)
+						rhs := resolveLocal(info, large, defs, 3)
 						ast.Inspect(rhs, func(k ast.Node) bool {
 							if cl, ok := k.(*ast.CallExpr); ok {
 								if fid, ok := cl.Fun.(*ast.Ident); ok && fid.Name == "len" && len(cl.Args) == 1 && isRecvField(info, cl.Args[0], recv, "idx2pub") {
@@ -347,14 +352,28 @@ func ruleCacheRecursion(c *Ctx) {
 			if hc, ok := r.(*ast.CallExpr); ok {
 				if hf := calleeFunc(info, hc); hf != nil && hf.Pkg() == pk.Types {
 					c.P.funcDecls(func(p2 *packages.Package, f2 *ast.FuncDecl) {
-						if p2 != pk || p2.TypesInfo.Defs[f2.Name] != hf || f2.Body == nil || len(f2.Body.List) != 1 {
+						if p2 != pk || p2.TypesInfo.Defs[f2.Name] != hf || f2.Body == nil || len(f2.Body.List) == 0 {
 							return
 						}
-						ret, ok := f2.Body.List[0].(*ast.ReturnStmt)
+						ret, ok := f2.Body.List[len(f2.Body.List)-1].(*ast.ReturnStmt)
 						if !ok || len(ret.Results) != 1 {
 							return
 						}
-						r = ast.Unparen(ret.Results[0])
+						switch {
+						case len(f2.Body.List) == 1:
+							r = ast.Unparen(ret.Results[0])
+						default:
+							// the child built field by field (c := new(T); c.f = v; …; return c): the literal it amounts to
+							bs := structBuilds(info, f2.Body, "PubkeyCache")
+							if len(bs) != 1 {
+								return
+							}
+							cl := &ast.CompositeLit{Lbrace: bs[0].pos, Rbrace: bs[0].pos}
+							for _, fname := range sortedKeys(bs[0].fields) {
+								cl.Elts = append(cl.Elts, &ast.KeyValueExpr{Key: &ast.Ident{Name: fname, NamePos: bs[0].pos}, Value: bs[0].fields[fname]})
+							}
+							r = cl
+						}
 						i := 0
 						for _, f := range f2.Type.Params.List {
 							for _, nm := range f.Names {
@@ -483,6 +502,20 @@ func ruleCacheRecursion(c *Ctx) {
 	c.P.funcDecls(func(p2 *packages.Package, f2 *ast.FuncDecl) {
 		forEachStore(p2.TypesInfo, f2.Body, func(sel *ast.SelectorExpr, what string) {
 			if sel.Sel.Name == "parent" {
+				// (setting the field of a value the function has just created is part of building it)
+				if id, ok := ast.Unparen(sel.X).(*ast.Ident); ok {
+					fresh := false
+					for _, b := range structBuilds(p2.TypesInfo, f2.Body, "PubkeyCache") {
+						if b.fields["parent"] != nil {
+							fresh = true
+						}
+					}
+					if o := p2.TypesInfo.ObjectOf(id); fresh && o != nil && paramIndex(f2, p2.TypesInfo, o) < 0 {
+						if v, isVar := o.(*types.Var); isVar && !v.IsField() && (f2.Recv == nil || len(f2.Recv.List[0].Names) == 0 || p2.TypesInfo.Defs[f2.Recv.List[0].Names[0]] != o) {
+							return
+						}
+					}
+				}
 				if nt := namedOf(p2.TypesInfo.TypeOf(sel.X)); nt != nil && nt.Obj().Name() == "PubkeyCache" && what == "assignment" {
 					bad = true
 					c.bad("PubkeyCache.parent.assigned", sel.Pos(), "parent is re-assigned in %s: the parent chain may become cyclic and lookups may not terminate", funcName(f2))
